@@ -88,6 +88,13 @@ macro_rules! scalar_type {
             $s.check(&format!("cmp_option/{tn}(Some,Some)"), json!(ord_s($ocmpf(Some(x), Some(y)))), &$exp_cmp);
             $s.check(&format!("const_cmp_for!(option)/{tn}"), json!(ord_s(const_cmp_for!(option; Some(x), Some(y)))), &$exp_cmp);
             $s.check(&format!("const_eq_for!(option)/{tn}"), json!(const_eq_for!(option; Some(x), Some(y))), &$exp_eq);
+            // each argument expression is evaluated exactly once
+            let mut n = 0u32;
+            let e1 = const_eq!({ n += 1; x }, { n += 1; y });
+            let c1 = const_cmp!({ n += 1; x }, { n += 1; y });
+            let e2 = const_eq_for!(option; { n += 1; Some(x) }, { n += 1; Some(y) });
+            $s.check(&format!("const_eq!/const_cmp!/{tn} evaluate their arguments once"), json!([e1, n == 6, ord_s(c1) == $exp_cmp.as_str().unwrap(), e2]),
+                     &json!([$exp_eq.as_bool().unwrap(), true, true, $exp_eq.as_bool().unwrap()]));
             // assertc_eq! / assertc_ne! panic exactly when == / != is false (with and without a message)
             let eqb = $exp_eq.as_bool().unwrap();
             let p1 = std::panic::catch_unwind(|| assertc_eq!(x, y)).is_err();
